@@ -41,6 +41,9 @@ type simRegion struct {
 	leader  uint64         // store id
 	confVer uint64
 	version uint64
+	// offline: a store that is Offline (0 = none); forcedLeader: the target leader the caller asked for (0 = none)
+	offline      uint64
+	forcedLeader uint64
 }
 
 func (s *simRegion) peerOn(store uint64) *metapb.Peer {
@@ -102,6 +105,9 @@ func (s *simRegion) apply(step OpStep) string {
 		}
 		if p.Role != metapb.PeerRole_Voter && p.Role != metapb.PeerRole_IncomingVoter {
 			return "transfer-leader-to-learner-or-demoting-peer"
+		}
+		if st.ToStore == s.offline && st.ToStore != s.forcedLeader {
+			return "transfer-leader-to-an-offline-store"
 		}
 		s.leader = st.ToStore
 	case AddPeer:
